@@ -120,7 +120,13 @@ func (g *Engine) Start() error {
 
 	if g.AsyncReadInPoller {
 		if g.IOExecute == nil {
-			g.ioTaskPool = taskpool.NewIO(0, 0, 0)
+			// the read tasks need buffers with room: with a zero-length
+			// buffer every read returns 0 and nothing is ever delivered.
+			bufSize := g.ReadBufferSize
+			if bufSize <= 0 {
+				bufSize = DefaultReadBufferSize
+			}
+			g.ioTaskPool = taskpool.NewIO(0, 0, bufSize)
 			g.IOExecute = g.ioTaskPool.Go
 		}
 	}
